@@ -172,7 +172,7 @@ CHECKS["C10"] = {
     "technique": "exhaustive enumeration (choice-tree DFS) of per-attempt outcomes x cancellation instants x jitter extremes on the real ServerPool.handle in virtual time (testing/synctest)",
     "level_text": "for 26 retry/timeout/stream configurations every vector of per-attempt backend outcomes (ok, 503, network error, hang, slow ok, slow 503), every cancellation instant of the menu "
                   "and the extremes/middle of every jitter draw are executed on the real retry wrapper + pool; oracle: attempts <= maxAttempts, stop at first success, back-off lower bound on the virtual clock, "
-                  "no attempt after cancel, final status/result = last attempt's, stream bodies sent once, per-attempt timeout => 408/timeout; breaker around retry opens at the N-th failed CLIENT request and then answers 503 shortCircuited without calling the backend; client requests cancelled inside an attempt or a back-off still record one outcome (kind-agnostic: window 2 / 50% must be open after two requests of which one really failed)",
+                  "no attempt after cancel, final status/result = last attempt's, stream bodies sent once, per-attempt timeout => 408/timeout; breaker around retry opens at the N-th failed CLIENT request and then answers 503 shortCircuited without calling the backend; client requests cancelled inside an attempt or a back-off still record one outcome (kind-agnostic: window 2 / 50% must be open after two requests of which one really failed); retry chains of 4 (thorough: 5) attempts: the exponential back-off keeps compounding",
     "level_note": "fnSendRequest stubbed; math/rand of pkg/resilience/retry.go replaced by vrand (5 representative answers per draw: 0,1,n/2,n-2,n-1); virtual time from synctest",
     "rule": "choice tree: cancel instant, outcome of each attempt actually made, jitter representative; distinct_nontrivial = distinct (attempt count, final status, result) classes",
     "explanation": "states = executions; each execution ran the real handle() to completion on the virtual clock",
@@ -207,7 +207,7 @@ CHECKS["C06"] = {
     "level_text": "for JWT (3 algorithms x 2 secrets x 4 claim sets x header/cookie), API signature (2 methods x 3 paths incl. escaped/non-ASCII x 4 queries x 3 body sizes x scopes x header/presign style x ttl), "
                   "Basic (2 users x 5 passwords incl. ':' / non-ASCII / empty x bcrypt/SHA) and header rules (alone and combined with JWT): every base request built by an independent issuer must be accepted, "
                   "and every single mutation of a covered part (token/signature bytes, algorithm, secret, method, path, query, signed header, body, key id, password, age) must be rejected with invalid + 401/400; "
-                  "requests are given to the filter exactly as the HTTP server does (body already read by FetchPayload); Basic: passwords with inner/outer white space and mutations that add blank, tab, LF or CRLF around user or password; Basic in ETCD mode: every history of user-set contents (empty, removed user, changed password) through the real etcdUserCache on a mocked cluster",
+                  "requests are given to the filter exactly as the HTTP server does (body already read by FetchPayload); Basic: passwords with inner/outer white space and mutations that add blank, tab, LF or CRLF around user or password; Basic in ETCD mode: every history of user-set contents (empty, removed user, changed password) through the real etcdUserCache on a mocked cluster; JWT validity over the life of one filter instance through the library clock seam (jwt.TimeFunc): the accepted token string presented again two hours later (after exp) must be rejected, a token presented two hours before nbf must be rejected and still be accepted in time",
     "level_note": "finite menus; OAuth2 token introspection (needs a remote endpoint) is not covered; wall-clock based ttl/exp checks use margins of >= 1 s .. 1 h",
     "rule": "choice tree: configuration, base-request dimensions, mutation index (0 = none); distinct_nontrivial = distinct (method, accepted variant | rejected mutation) classes",
     "bounds": {"quick": "full product of the menus x all single mutations", "thorough": "same"},
@@ -238,7 +238,7 @@ CHECKS["C16"] = {
     "technique": "exhaustive enumeration of connection-event histories for one client id on the real broker goroutines (quiescence by testing/synctest), reference session model",
     "level_text": "every well-formed sequence of events {connect clean, connect non-clean (takeover when one is open), subscribe t1/t2 (QoS 1), subscribe t1 at QoS 0 (a QoS-only change), unsubscribe, network drop of the current connection, network drop of a superseded "
                   "connection (= the moment its read loop notices), write-dead current connection, admin session delete, session storage stalls / resumes (puts block meanwhile)} up to the bound, on the real Broker with raw MQTT clients; after every event probe messages (QoS 0 on every topic, QoS 1 on t1) and the broker's "
-                  "registration/session map are compared with the reference session model (DESIGN A.6); unit takeoversched: the end of connection A's link runs concurrently with connection B of the same id connecting and subscribing, at gate granularity (sync and atomics of broker.go, client.go, session_manager.go, session.go, topic.go gated): B stays registered, receives what it subscribed (plus A's topics iff it continues A's persistent session), and its stored session survives",
+                  "registration/session map are compared with the reference session model (DESIGN A.6); unit takeoversched: the end of connection A's link runs concurrently with connection B of the same id connecting and subscribing, at gate granularity (sync and atomics of broker.go, client.go, session_manager.go, session.go, topic.go gated): B stays registered, receives what it subscribed (plus A's topics iff it continues A's persistent session), and its stored session survives; admin delete whose watch event reaches the broker late while the still-connected client subscribes in between: the client is disconnected once the event arrives",
     "level_note": "events are separated by quiescence (synctest.Wait), i.e. the interleaving of goroutines inside one event is the Go runtime's; up to 3 connections per history",
     "rule": "choice tree over the events enabled in each state; distinct_nontrivial = distinct event histories",
     "explanation": "states = executions (event histories run on a fresh real broker); transitions = executions",
@@ -285,7 +285,7 @@ CHECKS["C11"] = {
                   "generation complete without panic; (b) BFS over create/update/apply/delete of pipelines p1,p2 and a traffic gate: after every operation every other object still resolves through the gate's mapper "
                   "and answers with its own generation, Apply of an equal spec is a no-op; (c) 2 requests || ApplyPipeline || Delete+Create under the scheduler: no request fails or mixes generations, "
                   "a request started after the update sees the new generation; (d) requests || mux.reload under the scheduler: every per-request option comes from one generation; (a2) a filter that keeps its name but changes its kind (all ordered pairs of 14 kinds): the updated pipeline behaves like a fresh one; unit rlfilter (harness of C09): RateLimiter state kept across an update of an unchanged rule, a changed effective policy applied; the old generation answers a request exactly as it did before the update (all kinds but RateLimiter); "
-                  "(e) reload differential: for every ordered pair of 7 server specs (rules, body limit, route cache, server-level ipFilter) x 0-2 warm-up requests, after reload every request is answered exactly as by a fresh mux built from the new spec",
+                  "(e) reload differential: for every ordered pair of 7 server specs (rules, body limit, route cache, server-level ipFilter) x 0-2 warm-up requests, after reload every request is answered exactly as by a fresh mux built from the new spec; unit gfupdate: every ordered pair of GlobalFilter specs (each side absent / [x] / [y] / [x,y]) through Init, Inherit, requests on the old and the new generation: no panic, side-wise hand-over (inherit from the same side's filter of that name, old filters of a kept side closed exactly once, nothing closed twice), each request runs its own generation's flows",
     "level_note": "sync of trafficcontroller.go and sync/atomic of mux.go replaced by gated shims; a recording filter yields between the filters of a pipeline and inside its Init / Inherit; unit httpruntime (shared with C17): the real HTTPServer runtime on an in-memory listener, hot updates of rules and maxConnections; updates that need a listener restart are not covered",
     "rule": "choice trees: spec change / request count; BFS canonical state = live objects with generation; scheduler choices; distinct_nontrivial = distinct outcome classes",
     "explanation": "states = BFS canonical states + executions; transitions = BFS transitions + executions; all on the real objects",
@@ -309,7 +309,7 @@ CHECKS["C13"] = {
     "technique": "deviation-bounded exhaustive enumeration (choice-tree DFS) of specs around a base spec per kind; accepted specs are instantiated and exercised on the real objects",
     "level_text": "for 14 filter kinds (RateLimiter, Mock, Request/ResponseAdaptor, Validator, Fallback, CORSAdaptor, Request/ResponseBuilder, Proxy, CertExtractor, HeaderToJSON, MeshAdaptor, RemoteFilter; the Kafka, WASM, header-lookup and MQTT-protocol kinds need services or another protocol and are not instantiated), Pipeline, both resilience kinds and the GlobalFilter / HTTPServer / MQTTProxy specs: every spec within the deviation bound of a base spec (generic deviations generated "
                   "from the YAML tree: field absent, empty, zero, negative, huge, 0s, unsupported string, flipped bool, empty list/map; plus a hand-written menu of optional fields and cross references) "
-                  "is validated the way the admin API does (supervisor.NewSpec of the enclosing pipeline / object); every accepted spec is created, initialised, serves 6 requests, is inherited and closed; no step may panic; serving includes writing the produced response to a ResponseWriter as the mux does",
+                  "is validated the way the admin API does (supervisor.NewSpec of the enclosing pipeline / object); every accepted spec is created, initialised, serves 6 requests, is inherited and closed; no step may panic; serving includes writing the produced response to a ResponseWriter as the mux does; every duration field also with 999999ns (positive, zero in whole milliseconds)",
     "level_note": "kinds that need an external service to start (Kafka, WasmHost, RemoteFilter, HeaderLookup, etcd-backed basic auth) are out of scope; HTTPServer/MQTTProxy/GlobalFilter specs are only validated, not started (sockets)",
     "rule": "choice tree: one binary deviation choice per generated deviation (deviation bound = number of changed fields); distinct_nontrivial = distinct (kind, accepted|rejected) classes",
     "bounds": {"quick": "1 deviation", "thorough": "2 deviations"},
@@ -327,7 +327,7 @@ CHECKS["C03"] = {
     "technique": "deviation-bounded exhaustive enumeration (choice-tree DFS) of (request, backend answer, configuration) triples over real loopback sockets with a raw-socket client",
     "level_text": "every combination of up to 4 (thorough: 5) deviations from a base triple over 25 dimensions (method, escaped paths, queries, repeated / hop-by-hop / Connection-named headers incl. a second Connection line, "
                   "request body size x length-declared|chunked|gzip, backend status, body size around the compression threshold, framing, Content-Encoding, pipelines with Request/ResponseAdaptor body|compress|decompress, "
-                  "server by IP|host name|keepHost, compression, buffered|stream) is sent through the real http.Server + mux + Pipeline + Proxy to a real backend; oracle on what the backend received and on the bytes the client received (framing parsed by hand); unit hostheader: every form of server URL (IPv4, IPv6 literal, host name; with and without port; http/https) x keepHost through the real ServerPool request preparation: the Host handed to the HTTP client",
+                  "server by IP|host name|keepHost, compression, buffered|stream) is sent through the real http.Server + mux + Pipeline + Proxy to a real backend; oracle on what the backend received and on the bytes the client received (framing parsed by hand); unit hostheader: every form of server URL (IPv4, IPv6 literal, host name; with and without port; http/https) x keepHost through the real ServerPool request preparation: the Host handed to the HTTP client; unit memcache: pool memoryCache, every history of 3 requests (2 keys incl. a 404, GET/POST, request Cache-Control) x what a filter after the Proxy did to the previous response (recompressed, headers rewritten, status/body replaced): every response equals the backend's for its key, Content-Length matches, no-cache and POST are forwarded",
     "level_note": "free-running real net/http stack: the enumeration is over inputs and configurations, not schedules; no timing in the oracle; HTTP/1.1 only",
     "rule": "choice tree: one ChooseDev per dimension (deviation = non-base value); distinct_nontrivial = distinct (status, framing) outcomes",
     "bounds": {"quick": "4 deviations", "thorough": "5 deviations"},
@@ -359,7 +359,7 @@ CHECKS["C18"] = {
     "technique": "controlled-scheduler enumeration of 3 concurrent admin requests on the real handlers with a linearisability oracle; TLA+ model of the cluster mutex checked by TLC, all its traces replayed against the real mutex on an embedded etcd",
     "level_text": "part 1: all 56 trios from 8 admin requests (create/update/delete/get/list on overlapping names, same and other kind) x {object present, absent} run concurrently on the real handlers over a fake cluster whose KV operations and (ideal) mutex are "
                   "scheduler gates, every schedule up to the preemption bound; oracle: some sequential order consistent with call/return order explains all statuses, X-Config-Version values, reads and the final store. "
-                  "part 2: see unit mutex (TLC + trace replay); job failed-acquisition: a member with a 1 s request timeout fails 1-2 times to lock a mutex another member holds; after the release the handle that failed, another handle of that member and the previous holder must each be able to acquire it; api unit: one request of each trio may go to a second member's API server working on the same store and mutex; the menu includes an update with the configuration the object already has",
+                  "part 2: see unit mutex (TLC + trace replay); job failed-acquisition: a member with a 1 s request timeout fails 1-2 times to lock a mutex another member holds; after the release the handle that failed, another handle of that member and the previous holder must each be able to acquire it; api unit: one request of each trio may go to a second member's API server working on the same store and mutex; the menu includes an update with the configuration the object already has; goroutines of one member with a hold time longer than the request timeout (A holds 1.5 s at 1 s timeout, B then C call Lock on the same or another handle): no second holder, waiters served one at a time",
     "level_note": "part 1 assumes an exclusive lock (that is what part 2 is about); supervisor kinds are two test kinds",
     "rule": "choice tree: initial state + scheduler choices; distinct_nontrivial = distinct status triples",
     "explanation": "states = executions (schedules) resp. TLC states; transitions likewise; traces_validated_against_impl = executions on the real code",
